@@ -83,15 +83,16 @@ def gen_inplace_event(rng, recipe, x, X, prop=ID):
     if rng.random() < 0.8:
         for _ in range(8):
             key = gen_key(rng, shape, x, ["basic", "basic", "list", "npmask", "daskmask"])
+            value = rng.choice([0, 7, 3] if X.dtype.kind == "u" else [0, -1, 7, 3])
             try:
                 with warnings.catch_warnings():
                     warnings.simplefilter("ignore")
                     y_ = X.copy()
                     m_ = H.Machine({"recipe": recipe}, {}, [], prop)
                     m_.pool = {x: y_}
-                    y_[m_.resolve_key(key)] = 1
+                    y_[m_.resolve_key(key)] = value  # the very assignment the history will make
                     _ = y_.chunks
-                return {"ev": "setitem", "var": x, "key": key, "value": rng.choice([0, -1, 7, 3])}
+                return {"ev": "setitem", "var": x, "key": key, "value": value}
             except Exception:  # noqa: BLE001
                 continue
         return None
